@@ -17,9 +17,56 @@ from .c11 import prefix_arithmetic_layering, value_preservation
 TITLE = "Arithmetic and comparison do not depend on the units operands are written in"
 
 
+# the fields that carry the value of each value class, and the only methods that may assign them
+VALUE_FIELDS = {
+    "Quantity": ("magnitude", "unit"),
+    "Level": ("magnitude", "unit"),
+    "Measurement": ("measurand", "uncertainty"),
+    "Unit": ("prefix", "factors", "dimension"),
+    "Prefix": ("base", "exponent"),
+    "Logarithm": ("base", "prefix"),
+    "LogarithmicUnit": ("logarithm", "reference"),
+}
+CONSTRUCTORS = ("__init__", "__new__", "__setstate__", "__post_init__")
+
+
+def immutability(rep: Report, prog: Program, resolver: Resolver) -> None:
+    """R06.6: quantities, units and prefixes are shared (interned units, memoised Unit.quantify, module
+    constants), so the value of an expression is a function of its operands only if nothing assigns a
+    value field of an existing object."""
+    from ..core import AnalysisError
+    seen = 0
+    for q, fi in prog.functions.items():
+        if fi.module in ("hypothesis", "pytest"):
+            continue
+        for st in ast.walk(fi.node):
+            tgts = st.targets if isinstance(st, ast.Assign) else ([st.target] if isinstance(st, (ast.AugAssign, ast.AnnAssign)) else [])
+            if isinstance(st, ast.Delete):
+                tgts = st.targets
+            flat = []
+            for t in tgts:
+                flat += list(t.elts) if isinstance(t, (ast.Tuple, ast.List)) else [t]
+            for t in flat:
+                if not isinstance(t, ast.Attribute):
+                    continue
+                for kind, full in resolver.expr_alts(fi, t.value):
+                    cname = full.split(".")[-1]
+                    if kind != "inst" or t.attr not in VALUE_FIELDS.get(cname, ()):
+                        continue
+                    seen += 1
+                    ok = fi.cls == cname and fi.name in CONSTRUCTORS and isinstance(t.value, ast.Name) and t.value.id == fi.params()[0]
+                    rep.check("R06.6", f"{q}:{ast.unparse(t)}", ok,
+                              f"`{ast.unparse(st)[:70]}` in {q} assigns the value field {cname}.{t.attr} of an existing object: {cname} "
+                              "instances are shared (interned, memoised, module constants), so later arithmetic and comparisons on the "
+                              "same operands change their result", fi.where(st))
+    if seen < 10:
+        raise AnalysisError(f"only {seen} value-field assignments found (the constructors alone have more): R06.6 anchors moved")
+
+
 def run(rep: Report) -> None:
     prog = Program()
     resolver = Resolver(prog)
+    rep.rule("R06.6", "value fields of Quantity/Level/Measurement/Unit/Prefix/Logarithm(icUnit) are assigned only by their own constructors", floor=10)
     rep.rule("R06.1", "+ and -: physical value of the result is val(self) +/- val(other); the right operand itself is "
              "converted into the left unit before magnitudes meet", floor=6)
     rep.rule("R06.1v", "+ and -: value identity", floor=2)
@@ -32,6 +79,7 @@ def run(rep: Report) -> None:
     check_operators(rep, prog, resolver, "R06.1v", None, "R06.1", only=["add", "sub"])
     check_operators(rep, prog, resolver, "R06.4", None, None, only=["mul", "div", "rdiv", "pow", "root", "neg", "pos", "abs"])
     check_comparisons(rep, prog, resolver, "R06.2")
+    immutability(rep, prog, resolver)
     value_preservation(rep, prog, resolver)
     prefix_arithmetic_layering(rep, prog, resolver)
     rep.assume("q.in_unit(U) returns a quantity of unit U with unchanged physical value (C04 axiom)")
